@@ -23,11 +23,11 @@ JAVA = "-Xss512m"
 
 
 def cfg_mc(n, l, f, export):
-    return ("SPECIFICATION ESpec\nCONSTANTS\n  MaxStmts = %d\n  MaxScript = %d\n  MaxFault = %d\nINVARIANT %s\n"
+    return ("SPECIFICATION ESpec\nCONSTANTS\n  LeafVariants = {\"plain\", \"ins0\", \"req0\"}\n  MaxStmts = %d\n  MaxScript = %d\n  MaxFault = %d\nINVARIANT %s\n"
             "CHECK_DEADLOCK FALSE\n" % (n, l, f, "PrintCase" if export else INVS))
 
 
-CFG_TRACE = ("SPECIFICATION TraceSpec\nCONSTANTS\n  MaxStmts = 0\n  MaxScript = 0\n  MaxFault = 0\n"
+CFG_TRACE = ("SPECIFICATION TraceSpec\nCONSTANTS\n  LeafVariants = {}\n  MaxStmts = 0\n  MaxScript = 0\n  MaxFault = 0\n"
              "POSTCONDITION TraceDone\nCHECK_DEADLOCK FALSE\n")
 
 
